@@ -321,7 +321,13 @@ class Cluster:
             contains the blocking jobs for each job to be resubmitted
 
         """
-        # Locking is not required for this function.
+        # The two status files are written together; hold the lock so that no reader can see one
+        # updated without the other.
+        return self._do_action_under_lock(
+            self._prepare_for_resubmission, jobs_to_resubmit, updated_blocking_jobs_by_name
+        )
+
+    def _prepare_for_resubmission(self, jobs_to_resubmit, updated_blocking_jobs_by_name):
         assert self._config.is_complete
         self._config.is_complete = False
         # Resubmitting is an explicit request to run jobs again; a canceled flag left over from an
